@@ -328,7 +328,11 @@ func (in *Interp) runPath(entry *ssa.Function, prefix []int, R *HarnessResult) {
 		need := len(R.Witnesses) < in.opts.WitnessPerHarness
 		R.mu.Unlock()
 		if need {
-			if r, m := in.sess.CheckModel("", in.varNames(), "feas"); r == Sat {
+			r, m := in.sess.CheckModel(in.niceStrings(), in.varNames(), "feas")
+			if r != Sat {
+				r, m = in.sess.CheckModel("", in.varNames(), "feas")
+			}
+			if r == Sat {
 				w := &Violation{Harness: in.spec.Name, Label: "(witness)", Decisions: append([]int{}, in.decisions...), Model: m, Vars: append([]varDecl{}, in.vars...)}
 				R.mu.Lock()
 				R.Witnesses = append(R.Witnesses, w)
